@@ -25,10 +25,22 @@ void mt_decode_engine(mt_case * c, mt_engine_cfg * e, int maxW) {
   e->W = 1 + (int)(b0 % (unsigned)maxW);
   e->tail_preempt = tails[b1 & 7];
   e->mode = (c->tier == 1 && b2 >= 224) ? MV_NOISE : MV_CONTROLLED;
+  e->burst_id = 0; e->burst_len = 0;
   mt_hash_u((uint64_t)e->W | ((uint64_t)e->tail_preempt << 8) | ((uint64_t)e->mode << 20));
 }
 
 static mv_config g_cfg;
+
+/* push and pop are the owner's operations: whoever executes one on a worker's run queue must be running on that worker */
+static void qop_check(void * q, int kind) {
+  int me = mv_me();
+  if (me < 0 || !mv_enabled()) return;
+  for (int i = 0; i < g_envs_sz; i++) if ((void *)&g_envs[i].runnable_q == q) {
+    if (i != me) mt_fail("owner-only run queue operation %s executed on the queue of worker %d by a thread running on worker %d", kind == MVQ_PUSH ? "push" : "pop", i, me);
+    return;
+  }
+}
+extern void (*volatile myth_verif_qop_fn)(void *, int) __attribute__((weak));
 
 void mt_lib_start(mt_case * c, mt_engine_cfg * e, size_t def_stack) {
   myth_globalattr_t a;
@@ -46,6 +58,9 @@ void mt_lib_start(mt_case * c, mt_engine_cfg * e, size_t def_stack) {
   g_cfg.tail_preempt = e->tail_preempt;
   g_cfg.step_budget = c->tier ? 20000000 : 5000000;
   g_cfg.noise_level = 40;
+  g_cfg.burst_id = e->burst_id; g_cfg.burst_len = e->burst_len;
+  if (&myth_verif_qop_fn && e->mode == MV_CONTROLLED) myth_verif_qop_fn = qop_check;
+  if (e->burst_len) mt_desc("engine: spin loop %d polls %ld times in place before the token moves on\n", e->burst_id, e->burst_len);
   mv_set_quiescent_fn(mt_all_queues_empty);
   mt_desc("engine: W=%d mode=%s tail_preempt=%d/256 sched_bytes=%zu seed=%u\n", e->W,
           e->mode == MV_NOISE ? "noise" : "controlled", e->tail_preempt, c->sched_len, c->seed);
